@@ -29,6 +29,9 @@ CHECKS = {
  "C14": dict(level="model_checking", sec="3/C14", technique="exhaustive enumeration of small IL functions x initial states; lock-step explicit-state product of the input and the DCE output (observational-equivalence monitor)",
    text="Same program space as C12 plus indirect branches; structural identity (only ops->nop), then lock-step product from every initial valuation: same path, same stores, same scalar state at every intrinsic/indirect branch and at terminal blocks. Larger programs are not covered.",
    note="Trusted: refil reference semantics; intrinsics are observation points whose declared writes yield equal values on both sides."),
+ "C13": dict(level="model_checking", sec="3/C13", technique="exhaustive enumeration of small IL functions x initial states x intrinsic-effect variants; explicit-state product of each concrete execution with an assigned-scalar monitor",
+   text="Every function on <=2 blocks with <=3 instructions (3 blocks: <=1, thorough 2) from a 9-operation value-bearing alphabet; in every reachable product state each constant reported for an assigned scalar and each Constants::eval result is compared with the concrete value; constants() must complete on every function passing a definite-assignment check. Larger programs/other values are not covered.",
+   note="Trusted: refil reference semantics; havoc model for intrinsics (identity, or written scalars := 2)."),
 }
 NA = []
 def main():
